@@ -15,14 +15,14 @@ pub proof fn lemma_shift(v: u64, i: u64)
     ensures ((v >> (i * 8)) & 0xFF) as nat == (v as nat / pow256(i as nat)) % 256,
 {
     lemma_pow256_values();
-    if i == 0 { assert((v >> 0u64) & 0xFF == v % 256) by (bit_vector); }
-    else if i == 1 { assert((v >> 8u64) & 0xFF == (v / 0x100) % 256) by (bit_vector); }
-    else if i == 2 { assert((v >> 16u64) & 0xFF == (v / 0x1_0000) % 256) by (bit_vector); }
-    else if i == 3 { assert((v >> 24u64) & 0xFF == (v / 0x100_0000) % 256) by (bit_vector); }
-    else if i == 4 { assert((v >> 32u64) & 0xFF == (v / 0x1_0000_0000) % 256) by (bit_vector); }
-    else if i == 5 { assert((v >> 40u64) & 0xFF == (v / 0x100_0000_0000) % 256) by (bit_vector); }
-    else if i == 6 { assert((v >> 48u64) & 0xFF == (v / 0x1_0000_0000_0000) % 256) by (bit_vector); }
-    else { assert((v >> 56u64) & 0xFF == (v / 0x100_0000_0000_0000) % 256) by (bit_vector); }
+    if i == 0 { assert(i * 8 == 0); assert(v as nat / 1 == v as nat); assert((v >> 0u64) & 0xFF == v % 256) by (bit_vector); }
+    else if i == 1 { assert(i * 8 == 8); assert((v >> 8u64) & 0xFF == (v / 0x100) % 256) by (bit_vector); }
+    else if i == 2 { assert(i * 8 == 16); assert((v >> 16u64) & 0xFF == (v / 0x1_0000) % 256) by (bit_vector); }
+    else if i == 3 { assert(i * 8 == 24); assert((v >> 24u64) & 0xFF == (v / 0x100_0000) % 256) by (bit_vector); }
+    else if i == 4 { assert(i * 8 == 32); assert((v >> 32u64) & 0xFF == (v / 0x1_0000_0000) % 256) by (bit_vector); }
+    else if i == 5 { assert(i * 8 == 40); assert((v >> 40u64) & 0xFF == (v / 0x100_0000_0000) % 256) by (bit_vector); }
+    else if i == 6 { assert(i * 8 == 48); assert((v >> 48u64) & 0xFF == (v / 0x1_0000_0000_0000) % 256) by (bit_vector); }
+    else { assert(i == 7); assert(i * 8 == 56); assert((v >> 56u64) & 0xFF == (v / 0x100_0000_0000_0000) % 256) by (bit_vector); }
 }
 // digit k (0 = most significant) of the w-digit base-256 representation of v
 pub open spec fn be_digit(v: nat, w: nat, k: nat) -> nat { (v / pow256((w - 1 - k) as nat)) % 256 }
